@@ -42,8 +42,11 @@ def explore(tier="quick", prop="C20"):
     for it in range(n_cases):
         if failure:
             break
-        K = rng.choice([1, 2, 2, 3, 3, 4])
-        N = rng.randint(K, 12)
+        K = rng.choice([1, 2, 2, 3, 3, 4]) if it % 6 else rng.choice([6, 9, 16, 17, 20])
+        N = rng.randint(K, 12) if K <= 4 else K + rng.randint(0, 12)
+        # label arrays as callers hold them: Python lists and numpy arrays of any integer width
+        dt = rng.choice([None, None, np.int64, np.int32, np.int16, np.uint8, np.int8])
+        arr = (lambda v: np.asarray(v)) if dt is None else (lambda v: np.asarray(v, dtype=dt))
         lab = list(range(K)) + [rng.randrange(K) for _ in range(N - K)]
         if it % 7 == 0 and K > 1:
             lab = [0] * (N - K + 1) + list(range(1, K))        # imbalanced
@@ -63,7 +66,7 @@ def explore(tier="quick", prop="C20"):
         if len(stats["samples"]) < 3 and mode == 3:
             stats["samples"].append({"labels": lab, "preds": prd})
         try:
-            acc = float(g.opf_accuracy(np.asarray(lab), np.asarray(prd)))
+            acc = float(g.opf_accuracy(arr(lab), arr(prd)))
             want = ref_accuracy(lab, prd, K)
             if abs(acc - want) > 1e-12:
                 fail("opf_accuracy=%r but the definition gives %r" % (acc, want), lab, prd)
@@ -74,20 +77,20 @@ def explore(tier="quick", prop="C20"):
             if (abs(acc - 1) < 1e-15) != (lab == prd):
                 fail("opf_accuracy == 1 is %r but all-correct is %r" % (abs(acc - 1) < 1e-15, lab == prd), lab, prd)
                 break
-            cm = g.confusion_matrix(lab, prd)
+            cm = g.confusion_matrix(lab, prd) if dt is None else g.confusion_matrix(arr(lab), arr(prd))
             for a in range(K):
                 for b in range(K):
                     if cm[a][b] != sum(1 for t in range(N) if lab[t] == a and prd[t] == b):
                         fail("confusion matrix entry (%d,%d) = %r" % (a, b, cm[a][b]), lab, prd)
             if cm.shape != (K, K) or cm.sum() != N:
                 fail("confusion matrix shape/sum %r/%r" % (cm.shape, cm.sum()), lab, prd)
-            per = g.opf_accuracy_per_label(np.asarray(lab), np.asarray(prd))
+            per = g.opf_accuracy_per_label(arr(lab), arr(prd))
             for c in range(K):
                 nc = sum(1 for t in range(N) if lab[t] == c)
                 tp = sum(1 for t in range(N) if lab[t] == c and prd[t] == c)
                 if abs(per[c] - tp / nc) > 1e-12:
                     fail("per-label accuracy of class %d = %r, recall is %r" % (c, per[c], tp / nc), lab, prd)
-            pu = float(g.purity(lab, prd))
+            pu = float(g.purity(lab, prd) if dt is None else g.purity(arr(lab), arr(prd)))
             want = sum(max(sum(1 for t in range(N) if lab[t] == a and prd[t] == b) for a in range(K)) for b in range(K)) / N
             if abs(pu - want) > 1e-12 or not (0 < pu <= 1 + 1e-12):
                 fail("purity=%r, definition %r" % (pu, want), lab, prd)
@@ -115,7 +118,7 @@ def explore(tier="quick", prop="C20"):
                 if abs(out[i][j] - (A[i][j] - mean) / std) > 1e-9:
                     fail("normalize[%d][%d]=%r, expected %r" % (i, j, out[i][j], (A[i][j] - mean) / std), A.ravel(), [r, c])
     stats["rule"] = ("real opf_accuracy / confusion_matrix / opf_accuracy_per_label / purity on generated label vectors "
-                     "(K=1..4 all classes present, length <= 12; all-correct, cyclic-shift, constant, imbalanced, random "
+                     "(K=1..4 and 6..20, all classes present, length <= K + 12; lists and integer arrays of width 8..64 bits; all-correct, cyclic-shift, constant, imbalanced, random "
                      "predictions) and normalize on random matrices, against brute-force definitions; non-trivial = K >= 2 "
                      "and length >= 3")
     return stats, failure
